@@ -78,7 +78,17 @@ fn build(n: usize, edges: u64, variant: u64) -> (Vec<(String, String)>, Vec<Vec<
             match edges % 4 {
                 0 => t.push_str(&format!("let zz = 1 in {{\n{incs}}}\n")),
                 1 => t.push_str(&format!("foreach zi = [1] in {{\n{incs}}}\n")),
-                2 => t.push_str(&format!("if 1 then {{\n{incs}}}\n")),
+                // (the include statements spread over both branches of the if, by graph)
+                2 => {
+                    let lines: Vec<&str> = incs.lines().collect();
+                    let k = (edges as usize / 4) % (lines.len() + 1);
+                    let join = |ls: &[&str]| ls.iter().map(|l| format!("{l}\n")).collect::<String>();
+                    if k == lines.len() {
+                        t.push_str(&format!("if 1 then {{\n{incs}}}\n"));
+                    } else {
+                        t.push_str(&format!("if 1 then {{\n{}}} else {{\n{}}}\n", join(&lines[..k]), join(&lines[k..])));
+                    }
+                }
                 _ => t.push_str(&format!("multiclass ZM {{\n  foreach zi = [1] in {{\n{incs}  }}\n}}\n")),
             }
         } else {
@@ -366,7 +376,7 @@ impl Property for C16 {
         true
     }
     fn rule(&self) -> String {
-        "exhaustive: every edge set (self-loops included) over <=3 files (thorough: <=4, all 65536) x 10 variants {plain, +missing includes (at the end of the root; first in every other file, with the same extent as the root's first include), last file only in INCLUDE_DIR, last file in both directory and INCLUDE_DIR, every include written twice, root's includes nested in a block (let / foreach / if / a foreach inside a multiclass, by graph), two directories that each hold their own common.td included everywhere by the same text, no file but the root declaring anything by name (the others hold a missing include, their includes and an anonymous def of the root's class: every diagnostic and every reference exactly once however many paths lead to a file), every include statement written with a comment between the keyword and the file name, an include statement with an empty file name in every file}; family diamond-ladders: 1..89 stacked diamonds (up to 268 files reached along 2^89 paths, with and without cross includes inside a level) within a traversal budget linear in files + include statements; quick adds 3000 sampled 4-file graphs; thorough adds random graphs over 5..8 files. Each file = class K<i>; its include statements; one def per included file using that file's class. Oracle: set_root_file + index terminate (traversal budget), keys(diagnostics()) = reference reachable set, document links = one per resolvable include statement on its string literal with the reference target, a diagnostic on each unresolvable include and none elsewhere, each declaration once in its file's outline, references(K<j>) = its uses in every reachable includer. distinct = digest; non-trivial = the graph has a cycle or a diamond, or the variant is not plain".into()
+        "exhaustive: every edge set (self-loops included) over <=3 files (thorough: <=4, all 65536) x 10 variants {plain, +missing includes (at the end of the root; first in every other file, with the same extent as the root's first include), last file only in INCLUDE_DIR, last file in both directory and INCLUDE_DIR, every include written twice, root's includes nested in a block (let / foreach / the two branches of an if / a foreach inside a multiclass, by graph), two directories that each hold their own common.td included everywhere by the same text, no file but the root declaring anything by name (the others hold a missing include, their includes and an anonymous def of the root's class: every diagnostic and every reference exactly once however many paths lead to a file), every include statement written with a comment between the keyword and the file name, an include statement with an empty file name in every file}; family diamond-ladders: 1..89 stacked diamonds (up to 268 files reached along 2^89 paths, with and without cross includes inside a level) within a traversal budget linear in files + include statements; quick adds 3000 sampled 4-file graphs; thorough adds random graphs over 5..8 files. Each file = class K<i>; its include statements; one def per included file using that file's class. Oracle: set_root_file + index terminate (traversal budget), keys(diagnostics()) = reference reachable set, document links = one per resolvable include statement on its string literal with the reference target, a diagnostic on each unresolvable include and none elsewhere, each declaration once in its file's outline, references(K<j>) = its uses in every reachable includer. distinct = digest; non-trivial = the graph has a cycle or a diamond, or the variant is not plain".into()
     }
     fn assumptions(&self) -> Vec<String> {
         vec!["search order from the documentation: directory of the including file, then $INCLUDE_DIR (set once per process to a virtual directory)".into()]
